@@ -289,12 +289,50 @@ def handleFiles (req : Json) : Json :=
         ("model_paths", Json.arr (mf.map fun x => js x.1).toArray),
         ("unequal", Json.arr ((mf.filter fun x => !(imf.contains x)).map fun x => js x.1).toArray)])
 
+/-- `cli` op: the command-line tool over a scratch directory (C20). -/
+def handleCli (req : Json) : Json :=
+  let c := getObj req "case"
+  let impl := getObj req "impl"
+  let y := toY (getObj c "doc")
+  let args : CliArgs :=
+    { customOptions := (getStrList c "cli_opts").map s2t,
+      output := match c.getObjVal? "out" with | .ok (.str s) => some (s2t s) | _ => none,
+      partialLinking := getStr c "mode" == "partial",
+      omitVersionComment := !(getBool c "version_comment" false) }
+  let pre : Fs := match c.getObjVal? "pre" with
+    | .ok (.arr a) => a.toList.filterMap fun x => match x with
+        | .arr #[.str p, .str ct] => some (normPath (s2t p), s2t ct) | _ => none
+    | _ => []
+  let r := cliRun (parseDocument y) args pre
+  let implExitZero := getBool impl "exit_zero" false
+  let implFiles : List (String × String) := match impl.getObjVal? "files" with
+    | .ok (.obj o) => o.toList.filterMap fun (k, v) => match v with | .str s => some (k, s) | _ => none
+    | _ => []
+  let implStdout := getStr impl "stdout"
+  let mf := sortFs (r.fs.map fun (p, ct) => (t2s p, t2s ct))
+  let imf := sortFs implFiles
+  let exitAgree := (r.exit == .zero) == implExitZero
+  let filesEq := mf == imf
+  let stdoutEq := match r.stdout with
+    | some t => t2s t == implStdout
+    | none => r.exit != .zero || implStdout == ""
+  let optsParsed : Json := match parseOptArgs args.customOptions with
+    | some l => Json.arr (l.map fun (k, v) => Json.arr #[jstr k, jstr v]).toArray
+    | none => .null
+  Json.mkObj [("id", getObj c "id"), ("model_exit_zero", jb (r.exit == .zero)), ("exit_agree", jb exitAgree),
+    ("files_equal", jb (r.exit != .zero || filesEq)), ("stdout_equal", jb stdoutEq),
+    ("model_paths", Json.arr (mf.map fun x => js x.1).toArray),
+    ("unequal", Json.arr (((mf.filter fun x => !(imf.contains x)).map fun x => js x.1)
+        ++ ((imf.filter fun x => !(mf.any fun m => m.1 == x.1)).map fun x => js ("+" ++ x.1))).toArray),
+    ("opts", optsParsed)]
+
 def handle (req : Json) : Json :=
   match getStr req "op" with
   | "prune" => handlePrune req
   | "eqmod" => handleEqmod req
   | "files" => handleFiles req
   | "resolved" => handleResolved req
+  | "cli" => handleCli req
   | _ => handleCheck req
 
 partial def loop (h : IO.FS.Stream) (out : IO.FS.Stream) : IO Unit := do
